@@ -340,7 +340,7 @@ def run(ctx):
             first = mine[0][len("tuple("):]
             r.check(first.startswith(recv + ", "), "add_lane/restore-id=persist-id#%d" % n, c.loc(), "the initialiser is built from the same id that is returned for persisting",
                     "the initialiser is built from %s but the id returned for persisting is %s" % (recv[:60], first[:60]))
-            r.check("call(" in recv and "branch(" in recv, "add_lane/id-from-store_id#%d" % n, c.loc(), "that id is the (error-propagated) result of the store_id look-up")
+            r.check("call(" in recv and ("branch(" in recv or "<Ok>" in recv), "add_lane/id-from-store_id#%d" % n, c.loc(), "that id is the (error-propagated) result of the store_id look-up")
         if n < 2:
             raise AnchorMissing("add_lane: expected the value and map arms to build an initialiser from the store id (found %d)" % n)
         # ... and what add_lane hands back for persisting is that same id, untouched: the component of the pair the initialiser came from
